@@ -1,15 +1,15 @@
 SPECIFICATION Spec
 CONSTANTS
-  Threshold = 1
+  Threshold = 255
   MaxRedirect = 65535
   MaxHeader = 255
   Deviations = {}
   Bug = ""
-  Mode = "lk"
+  Mode = "dims"
   NC = 2
   MaxBody = 3
   MaxPrefix = 2
-  SkipBytes = {0, 128}
+  SkipBytes = {0, 1, 128}
   Variants = {0}
   DimVals = {0, 3}
   MaxW = 2
@@ -17,5 +17,6 @@ CONSTANTS
   DomT = 1
   PadK = 0
   Waive = {}
-INVARIANTS Idempotent SameFont SameChains Fits Closed MainLoopSame PlWellFormed
+CONSTRAINT FirstTripOnly
+INVARIANTS EmitCase
 CHECK_DEADLOCK FALSE
